@@ -112,14 +112,17 @@ func c14HTTP(c *Ctx, ix *PkgIndex, m otlpMod) {
 		o := objOf(info, e)
 		return o != nil && scVars[o]
 	}
-	inspectNoLit(cl.Body(), func(n ast.Node) bool {
-		if as, ok := n.(*ast.AssignStmt); ok && len(as.Lhs) == 1 && len(as.Rhs) == 1 && isStatus(as.Rhs[0]) {
-			if o := objOf(info, as.Lhs[0]); o != nil {
-				scVars[o] = true
+	// … in the retried closure and in the declared functions of the package (response handling may live in helpers)
+	for _, f := range ix.All {
+		inspectNoLit(f.Body(), func(n ast.Node) bool {
+			if as, ok := n.(*ast.AssignStmt); ok && len(as.Lhs) == 1 && len(as.Rhs) == 1 && isStatus(as.Rhs[0]) {
+				if o := objOf(info, as.Lhs[0]); o != nil {
+					scVars[o] = true
+				}
 			}
-		}
-		return true
-	})
+			return true
+		})
+	}
 	// the Do error variable: nil on the status paths
 	var doErr types.Object
 	inspectNoLit(cl.Body(), func(n ast.Node) bool {
@@ -169,13 +172,29 @@ func c14HTTP(c *Ctx, ix *PkgIndex, m otlpMod) {
 			}
 			return env(e)
 		}
-		seen := g.ReachUnder(env2)
+		// the outcomes reachable for this status: returns of the closure, and — where a return hands back the result of a
+		// response-handling helper of the package — the returns of that helper under the same facts (one level)
 		got := map[string]bool{}
-		for x := range seen {
-			if rs, ok := x.N.(*ast.ReturnStmt); ok {
+		var collect func(f *FuncInfo, depth int)
+		collect = func(f *FuncInfo, depth int) {
+			fg := ix.FG(f)
+			for x := range fg.ReachUnder(env2) {
+				rs, ok := x.N.(*ast.ReturnStmt)
+				if !ok {
+					continue
+				}
+				if len(rs.Results) == 1 && depth > 0 {
+					if call, isCall := unparen(rs.Results[0]).(*ast.CallExpr); isCall && !callToDecl(info, newRespErr)(call) {
+						if h := ix.declByObj(callee(info, call)); h != nil && h != f {
+							collect(h, depth-1)
+							continue
+						}
+					}
+				}
 				got[classify(rs)] = true
 			}
 		}
+		collect(cl, 1)
 		wantRetry := retrySet[code]
 		want2xx := code >= 200 && code <= 299
 		okk := got["retryable"] == wantRetry && got["nil"] == want2xx
@@ -345,6 +364,19 @@ func c14HTTP(c *Ctx, ix *PkgIndex, m otlpMod) {
 		}
 		// partial success: handled, never returned
 		found, handled, returned := partialSuccessArm(info, cl)
+		if !found {
+			// the 2xx handling may live in a helper of the package the closure returns through
+			inspectNoLit(cl.Body(), func(n ast.Node) bool {
+				if call, ok := n.(*ast.CallExpr); ok && !found {
+					if h := ix.declByObj(callee(info, call)); h != nil {
+						if f2, h2, r2 := partialSuccessArm(info, h); f2 {
+							found, handled, returned = f2, h2, r2
+						}
+					}
+				}
+				return true
+			})
+		}
 		ps := found
 		c.Check(ps && handled && !returned, "R4", sp+"|UploadX$closure|partial success reported through otel.Handle, not returned", at(ix.M, cl.Pos()), "a 2xx response is a success for the retry loop", "a partially successful export is returned as an error (and would be retried, duplicating accepted data) or silently ignored")
 	}
